@@ -199,9 +199,24 @@ def monitors(rep, rng, runq, todo, f, data, comps, grids, expansions, normalize,
                 break
             nus2 = np.asarray(g.eigenvalues, float)
             gap_ok = K == 1 or np.min(np.abs(np.diff(np.sort(nus)))) > 1e-6 * float(nus.max())
-            if len(nus2) != K or np.max(np.abs(np.sort(nus2) - np.sort(nus))) > 1e-7 * max(1.0, float(nus.max())):
-                bad.append(f"eigenvalues change under the permutation {perm} of the components")
+            if len(nus2) != K:
+                bad.append(f"number of components changes under the permutation {perm}")
                 break
+            if np.max(np.abs(np.sort(nus2) - np.sort(nus))) > 1e-7 * max(1.0, float(nus.max())):
+                # a k-component fit keeps the first k pairs in SOLVER order (finding F1, decided by C01), and that
+                # order changes with the permutation: compare the full spectra instead
+                try:
+                    Mtot = S.shape[1]
+                    fa = np.sort(np.asarray(fit_mfpca(data, expansions, Mtot, normalize).eigenvalues, float))[::-1]
+                    fb = np.sort(np.asarray(fit_mfpca(fd.multivariate([comps[q] for q in perm]), [expansions[q] for q in perm],
+                                                      Mtot, normalize).eigenvalues, float))[::-1]
+                except Exception:  # noqa: BLE001
+                    fa = fb = None
+                if fa is None or len(fa) != len(fb) or np.max(np.abs(fa - fb)) > 1e-7 * max(1.0, float(fa.max())):
+                    bad.append(f"eigenvalues change under the permutation {perm} of the components")
+                    break
+                rep.dist["permutation: different k-subset kept (F1)"] = rep.dist.get("permutation: different k-subset kept (F1)", 0) + 1
+                continue
             if gap_ok:
                 with warnings.catch_warnings():
                     warnings.simplefilter("ignore")
